@@ -45,6 +45,7 @@ type cfgT struct {
 	heartbeat    bool     // horizon past the first heartbeat tick
 	closeErr     bool     // the transport's Close returns an error
 	timeoutLimit int64    // gocql.TimeoutLimit (deprecated knob: close the connection after that many timeouts)
+	handshake    bool     // the scenario is the connection handshake itself, with a fault at an enumerated step
 	t            [2]int   // total deviation bound quick / thorough
 }
 
@@ -215,7 +216,100 @@ func (c *cfgT) nops() int {
 	return n
 }
 
+// handshakeBody: the handshake against a node that misbehaves at one step (free choice of step and
+// fault): the dial must return - a connection or an error - within the connect timeout; after a failed
+// dial the transport is closed and no goroutine of that connection survives.
+func (c *cfgT) handshakeBody() {
+	gocql.VerifResetGlobals()
+	vatomic.Yield = false
+	faults := []string{"none", "never", "drop", "cuthdr", "cutbody", "garbage", "error", "wrong-stream", "late"}
+	step := vs.Choose(2, vs.Free) // 0: reply to OPTIONS, 1: reply to STARTUP
+	fault := faults[vs.Choose(len(faults), vs.Free)]
+	seen := 0
+	node := vnode.New("n1", net.IPv4(10, 0, 0, 1), 9042, func(n *vnode.Node, sc *vnode.ServerConn, rec *vnode.ReqRec) vnode.Reply {
+		var rep vnode.Reply
+		switch rec.Req.Msg.(type) {
+		case *frame.Options:
+			rep = vnode.Reply{Msg: &frame.Supported{Options: []frame.KL{{Key: "CQL_VERSION", Values: []string{"3.4.5"}}}}}
+		case *frame.Startup:
+			rep = vnode.Reply{Msg: frame.Ready{}}
+		default:
+			return vnode.Reply{Msg: frame.ResultVoid{}}
+		}
+		mine := seen == step
+		seen++
+		if !mine {
+			return rep
+		}
+		switch fault {
+		case "never":
+			return vnode.Reply{Never: true}
+		case "drop":
+			return vnode.Reply{Drop: true}
+		case "cuthdr":
+			rep.CutAt = 4
+		case "cutbody":
+			rep.CutAt = frame.HeaderSize(rec.Req.Header.Version) + 1
+		case "garbage":
+			rep.Raw = []byte{0x84, 0x00, 0x7f, 0xff, 0x63, 0x00, 0x00, 0x00, 0x02, 0xde, 0xad}
+		case "error":
+			rep.Msg = &frame.Error{Code: 0x0000, Message: "server error (scripted)"}
+		case "wrong-stream":
+			x := rec.Stream + 1
+			rep.Stream = &x
+		case "late":
+			rep.Delay = lateDelay
+		}
+		return rep
+	})
+	var wlog []vnet.WriteRec
+	client, server := vnet.Pipe("c0", &net.TCPAddr{IP: net.IPv4(10, 0, 0, 9), Port: 40000}, node.Addr)
+	client.Log = &wlog
+	node.AcceptSync(server)
+	cluster := gocql.NewCluster("10.0.0.1")
+	cluster.ProtoVersion = c.proto
+	cluster.Timeout = reqTimeout
+	cluster.ConnectTimeout = reqTimeout
+	cluster.WriteCoalesceWaitTime = 0
+	t0 := vs.Clock()
+	live, err := gocql.VerifDial(client, *cluster, !c.coalesce)
+	took := vs.Clock() - t0
+	_, dDev, _ := vs.Deviations()
+	if dDev == 0 && took > reqTimeout+time.Millisecond {
+		vs.Failf("c06:handshake:unbounded-wait", "dial returned after %v (connect timeout %v) with fault %s at step %d: %v", took, reqTimeout, fault, step, err)
+	}
+	if fault == "cutbody" && step == 1 {
+		fault = "none" // READY has no body: nothing to cut, the whole frame is delivered
+	}
+	if err == nil && (fault == "never" || fault == "drop" || fault == "cuthdr" || fault == "cutbody" || fault == "garbage" || fault == "error" || fault == "wrong-stream") && dDev == 0 {
+		vs.Failf("c06:handshake:succeeded-despite-fault", "dial succeeded although the node answered step %d with %s", step, fault)
+	}
+	if err == nil {
+		live.Close()
+	}
+	vs.WaitQuiescent()
+	if err != nil {
+		if !client.Closed() {
+			vs.Failf("c06:handshake:transport-left-open-after-failed-dial", "dial failed (%v) with fault %s at step %d but the transport was not closed", err, fault, step)
+		}
+	}
+	var alive []string
+	for _, t := range vs.LiveThreads() {
+		if strings.Contains(t, "@gocql.") {
+			alive = append(alive, t)
+		}
+	}
+	if len(alive) > 0 {
+		vs.Failf("c06:handshake:goroutine-survives", "after the dial returned (%v) with fault %s at step %d and quiescence, driver goroutines are still alive: %v", err, fault, step, alive)
+	}
+	vs.Observe("step=%d fault=%s -> %s", step, fault, gocql.VerifErrClass(err))
+}
+
 func (c *cfgT) body(prop string) {
+	if c.handshake {
+		c.handshakeBody()
+		return
+	}
 	gocql.VerifResetGlobals()
 	gocql.TimeoutLimit = c.timeoutLimit
 	vatomic.Yield = false // the stream-id allocator's atomic steps are explored by C08
@@ -635,6 +729,8 @@ func connScenarios() []*cfgT {
 		{name: "v4-writefault-closeerr", props: "C06", proto: 4, callers: [][]string{q(1), q(1), q(1)}, canceller: -1, writeFault: "some", blockWrite: true, closeErr: true, fates: []string{"reply", "late"}, t: [2]int{2, 3}},
 		{name: "v4-writefault-coalesce", props: "C06", proto: 4, callers: [][]string{q(1), q(1), q(1)}, canceller: -1, writeFault: "some", coalesce: true, fates: []string{"reply", "late"}, t: [2]int{2, 3}},
 		{name: "v2-exhaustion-3x1-free2", props: "C06", proto: 2, callers: [][]string{q(2), q(2), q(2)}, freeIDs: 2, canceller: -1, fates: rln, t: [2]int{2, 3}},
+		{name: "v4-handshake-faults", props: "C06", proto: 4, handshake: true, canceller: -1, t: [2]int{2, 3}},
+		{name: "v2-handshake-faults", props: "C06", proto: 2, handshake: true, canceller: -1, t: [2]int{1, 2}},
 		{name: "v4-heartbeat-2x1", props: "C06", proto: 4, callers: [][]string{q(1), q(1)}, canceller: -1, heartbeat: true, fates: []string{"reply", "never", "drop"}, t: [2]int{2, 3}},
 		// C07
 		{name: "w-direct-3-sizes", props: "C07", proto: 4, callers: [][]string{{"q"}, {"Q"}, {"q", "Q"}}, canceller: 1, writeFault: "some", fates: []string{"reply"}, t: [2]int{2, 3}},
